@@ -1,6 +1,7 @@
 """C14 - encoding is a pure function of the document.
 
-R14.1 set/clear pairing of the colour context on all exits; R14.2 no store through a borrowed
+R14.1 set/clear pairing of the colour context on all exits; R14.7 no read of the colour context outside the
+encode's own set..clear window while a context can leak; R14.2 no store through a borrowed
 (caller-owned) component on the construction/encode call graphs; R14.3 no in-place polars mutation
 of a borrowed frame; R14.4 no time/random/environment/hash-order dependence; R14.5 shared
 registries are written idempotently; R14.6 no memoised function that reads external state.
@@ -15,6 +16,7 @@ from ..effects import POLARS_INPLACE, USER_CLASSES, Shared, root_of, stores_in
 from ..ownership import Ownership
 from ..pm import AnalysisError, dotted, unparse, walk_no_nested
 from ..report import Ctx
+from .c12 import ColourContext
 from .c15 import idempotent_registration
 
 ENTRIES = {"RTFDocument.rtf_encode": {"self": 0}, "RTFDocument.__init__": {"self": 1, "data": 0}}
@@ -33,68 +35,99 @@ def calls_named(fn: ast.AST, name: str) -> list[ast.Call]:
     return [c for c in walk_no_nested(fn) if isinstance(c, ast.Call) and dotted(c.func).split(".")[-1] == name]
 
 
-def r14_1(ctx: Ctx) -> None:
+def r14_1(ctx: Ctx, cg: CallGraph, cc: ColourContext) -> list[str]:
+    """every establishment of the colour context is released on every exit; returns the leaks found"""
+    from ..astmatch import guards
     pm = ctx.pm
+    leaks: list[str] = []
     n = 0
+    # clients of the context API: set ... clear pairing on all exits (a `with` on a context manager is a set at entry and a
+    # clear at those exits on which the manager clears)
     for fi in pm.iter_funcs():
-        sets = calls_named(fi.node, "set_document_context")
-        if not sets or fi.cls == "ColorService":
+        if fi.cls == cc.owner or cc.cm_summary(fi) is not None:
             continue
-        g = CFG(fi.node)
-        clear_nodes = [nd for nd in g.nodes if nd.ast is not None and any(
-            isinstance(c, ast.Call) and dotted(c.func).split(".")[-1] == "clear_document_context"
-            for part in own_parts(nd) for c in ast.walk(part))]
+        g, sets, clears, weak = cc.info(fi)
+        if not sets and not weak:
+            continue
         live = g.reachable(g.entry)
-        for sc in sets:
-            nodes = [nd for nd in g.node_containing(sc) if id(nd) in live]
-            if not nodes:
-                ctx.instance("R14.1", fi.where(sc), f"{fi.short}: set_document_context in unreachable code", nontrivial=False)
+        for nd in sets + weak:
+            sc = next((c for part in own_parts(nd) for c in ast.walk(part) if isinstance(c, ast.Call) and
+                       (cc.op_of_call(c) == "set" or cc.manager_of(fi, c) is not None)), nd.ast)
+            if id(nd) not in live:
+                ctx.instance("R14.1", fi.where(sc), f"{fi.short}: colour context established in unreachable code", nontrivial=False)
                 continue
             n += 1
-            nd = nodes[0]
-            ok_normal = all(g.must_pass(s, clear_nodes, [g.exit], exceptional=True) for s in nd.succ)
-            ok_exc = all(g.must_pass(s, clear_nodes, [g.xexit], exceptional=True) for s in nd.succ)
-            ctx.instance("R14.1", fi.where(sc), f"{fi.short}: context set; cleared on every normal exit: {ok_normal}; on every exceptional exit: {ok_exc}")
+            ok_normal = all(g.must_pass(s, clears, [g.exit], exceptional=True) for s in nd.succ)
+            ok_exc = all(g.must_pass(s, clears, [g.xexit], exceptional=True) for s in nd.succ)
+            ctx.instance("R14.1", fi.where(sc), f"{fi.short}: context set by `{unparse(sc)[:50]}`; cleared on every normal exit: {ok_normal}; on every exceptional exit: {ok_exc}")
             if not ok_normal:
+                leaks.append(f"{fi.short} (normal exit)")
                 ctx.violation("R14.1", fi.short, "context not cleared on a normal exit", fi.where(sc),
-                              f"{fi.short}: a path from set_document_context to a return does not pass clear_document_context")
+                              f"{fi.short}: a path from establishing the colour context to a return does not pass clear_document_context")
             if not ok_exc:
+                leaks.append(f"{fi.short} (exception)")
                 ctx.violation("R14.1", fi.short, "context not cleared on exception", fi.where(sc),
                               f"{fi.short}: an exception after set_document_context leaves the colour context of this document "
                               "behind (no try/finally); the next encode in the process sees it")
-    # context managers that set the context: the yield must be protected by a finally that clears it
+    # context managers that establish the context: every path to the yield sets it, the yield is protected by a clearing finally
     for fi in pm.iter_funcs():
-        if not any(d.endswith("contextmanager") for d in fi.decorators):
+        sm = cc.cm_summary(fi)
+        if sm is None or not sm["sets"]:
             continue
-        t = unparse(fi.node)
-        if "_document_colors" not in t and "set_document_context" not in t and "_current_document_colors" not in t:
-            continue
-        ys = [y for y in walk_no_nested(fi.node) if isinstance(y, (ast.Yield, ast.YieldFrom))]
-        for y in ys:
+        for y, established in sm["yields"]:
             n += 1
-            prot = False
-            p = getattr(y, "_parent", None)
-            while p is not None and p is not fi.node:
-                if isinstance(p, ast.Try) and p.finalbody and any(x is y for st in p.body for x in ast.walk(st)):
-                    ft = " ".join(unparse(st) for st in p.finalbody)
-                    if "clear_document_context" in ft or ".set(None)" in ft or ".reset(" in ft or "= None" in ft:
-                        prot = True
-                p = getattr(p, "_parent", None)
-            conditional = [unparse(a.test) for a in _anc_nodes(y, fi.node) if isinstance(a, ast.If)]
-            ctx.instance("R14.1", fi.where(y), f"{fi.short}: context manager yield protected by a clearing finally: {prot}; conditional on {conditional}")
-            if not prot:
-                ctx.violation("R14.1", fi.short, "context manager without finally", fi.where(y),
-                              f"{fi.short}: the colour context set by this context manager is not cleared when the body raises (yield outside try/finally)")
-            if conditional:
+            conditional = [("" if pol else "not ") + unparse(t) for t, pol in guards(y, fi.node)]
+            ctx.instance("R14.1", fi.where(y), f"{fi.short}: context manager; context established at the yield: {established}; cleared when the block ends: "
+                                               f"{sm['clears_normal']}; when it raises: {sm['clears_exc']}; yield conditional on {conditional}")
+            if not established:
+                leaks.append(f"{fi.short} (keeps an outer context)")
                 ctx.violation("R14.1", fi.short, "context manager keeps an outer context " + str(conditional), fi.where(y),
-                              f"{fi.short}: under `{conditional[0]}` the document is encoded with a colour context that was already active (stale palette of another document)")
+                              f"{fi.short}: under `{conditional[0] if conditional else '?'}` the document is encoded with a colour context that was already active (stale palette of another document)")
+        if not sm["clears_exc"]:
+            leaks.append(f"{fi.short} (exception in the block)")
+            ctx.violation("R14.1", fi.short, "context manager without finally", fi.where(),
+                          f"{fi.short}: the colour context set by this context manager is not cleared when the body raises (yield outside try/finally)")
+        if not sm["clears_normal"]:
+            leaks.append(f"{fi.short} (normal end of the block)")
+            ctx.violation("R14.1", fi.short, "context manager does not clear", fi.where(),
+                          f"{fi.short}: the colour context set by this context manager is still set after the block ends")
+    for msg in cc.unrecognised:
+        ctx.gap("R14.1", msg)
     if n == 0:
         # no explicit context any more is fine only if nothing reads one
-        if pm.has_func("ColorService.set_document_context"):
-            callers = CallGraph(pm).callers_of("ColorService.set_document_context")
-            if callers:
-                raise AnalysisError("set_document_context call sites exist but none is in reachable code")
+        callers = cg.callers_of(cc.setter.short)
+        if callers:
+            raise AnalysisError("set_document_context call sites exist but none is in reachable code")
     ctx.floor("R14.1", 1)
+    return leaks
+
+
+def r14_7(ctx: Ctx, cg: CallGraph, cc: ColourContext, leaks: list[str]) -> None:
+    """the colour context is process state: a read outside this encode's own set..clear window sees whatever an earlier
+    encode left behind - harmless only if every establishment is released on every exit (R14.1)"""
+    pm = ctx.pm
+    readers = []
+    for fi in pm.iter_funcs():
+        if fi is cc.setter or fi is cc.clearer:
+            continue
+        if any(cc.prim(x) == "read" for x in walk_no_nested(fi.node)):
+            readers.append(fi)
+    if not (cc.cvars or cc.attrs):
+        ctx.gap("R14.7", f"the state written by {cc.setter.short} could not be re-identified")
+        return
+    entry = "RTFDocument.rtf_encode"
+    seen, edges = cc.typestate(entry)
+    for r in readers:
+        states = sorted({st for s, st in seen if s == r.short})
+        ctx.instance("R14.7", r.where(), f"{r.short} reads the colour context; entered with context states {states}; leaks of the context: {leaks or 'none'}")
+    if not leaks:
+        return
+    for p, call, nd, path in cc.culprits(entry, seen, edges, {r.short for r in readers}):
+        fi = pm.funcs[p[0]]
+        reader = path[-1]
+        ctx.violation("R14.7", reader, f"stale context read via {p[0]} -> {nd[0]}", fi.where(call) if call is not None else fi.where(),
+                      f"{reader} reads the process-wide colour context outside this encode's own set..clear window ({' -> '.join(dict.fromkeys([p[0]] + path))}) "
+                      f"while the context can be left behind by an earlier encode ({leaks[0]}): the output depends on what was encoded before")
 
 
 def _anc_nodes(n, stop):
@@ -255,30 +288,73 @@ def r14_4(ctx: Ctx, cg: CallGraph) -> None:
     ctx.floor("R14.4", 2)
 
 
-def _order_normalised(fi, it) -> tuple[bool, str]:
-    """reasons an iteration over a set is order-insensitive"""
-    # (A) the list built from it is sorted before use in the same function
-    p = getattr(it, "_parent", None)
-    comp = p if isinstance(it, ast.comprehension) else None
-    holder = comp if comp is not None else it
-    q = getattr(holder, "_parent", None)
-    if isinstance(q, ast.Call) and dotted(q.func) == "sorted":
-        return True, "wrapped in sorted()"
-    if isinstance(q, ast.Assign) and len(q.targets) == 1 and isinstance(q.targets[0], ast.Name):
+ORDER_FREE = {"sorted", "set", "frozenset", "sum", "min", "max", "any", "all", "len"}      # result independent of the argument's order
+ORDER_KEEPING = {"list", "tuple", "iter", "enumerate", "reversed"}                              # result order = argument order
+
+
+def _order_free_use(fi, e: ast.AST, depth: int = 3) -> str | None:
+    """why the order of the sequence produced by expression node `e` cannot reach the output, or None.
+    Follows the value upwards: order-keeping wrappers, an order-free consumer, a set-valued comprehension,
+    a membership test, or a local name all of whose uses are order-free (or that is sorted)."""
+    q = getattr(e, "_parent", None)
+    if isinstance(q, ast.Call) and e in q.args:
+        d = dotted(q.func)
+        if d in ORDER_FREE:
+            return f"consumed by {d}()"
+        if d in ORDER_KEEPING:
+            return _order_free_use(fi, q, depth)
+        if isinstance(q.func, ast.Attribute) and q.func.attr in ("update", "difference_update", "intersection_update", "issubset", "issuperset", "isdisjoint",
+                                                                 "union", "intersection", "difference", "symmetric_difference"):
+            return f"consumed by set operation .{q.func.attr}()"
+        return None
+    if isinstance(q, ast.Compare) and e in q.comparators and all(isinstance(o, (ast.In, ast.NotIn)) for o in q.ops):
+        return "only used for a membership test"
+    if isinstance(q, ast.comprehension) and q.iter is e:
+        comp = getattr(q, "_parent", None)
+        if isinstance(comp, ast.SetComp):
+            return "feeds a set comprehension"
+        if isinstance(comp, (ast.GeneratorExp, ast.ListComp)):
+            return _order_free_use(fi, comp, depth)
+        return None
+    if isinstance(q, ast.Assign) and len(q.targets) == 1 and isinstance(q.targets[0], ast.Name) and depth > 0:
         name = q.targets[0].id
+        loads = [n for n in walk_no_nested(fi.node) if isinstance(n, ast.Name) and n.id == name and isinstance(n.ctx, ast.Load)]
         for c in walk_no_nested(fi.node):
             if isinstance(c, ast.Call) and isinstance(c.func, ast.Attribute) and c.func.attr == "sort" and isinstance(c.func.value, ast.Name) and c.func.value.id == name:
-                return True, f"result list `{name}` is sorted in place afterwards"
-            if isinstance(c, ast.Call) and dotted(c.func) == "sorted" and c.args and isinstance(c.args[0], ast.Name) and c.args[0].id == name:
-                return True, f"result `{name}` passed through sorted()"
-    if isinstance(q, ast.Return) and fi.short == "ColorService.collect_document_colors":
-        return True, "returned colour list is re-sorted by master index in generate_rtf_color_table/get_rtf_color_index (checked by C12 R12.2)"
-    # (B) loop body only feeds other sets / membership tests
-    if isinstance(it, ast.For):
-        body_calls = [c for s in it.body for c in ast.walk(s) if isinstance(c, ast.Call) and isinstance(c.func, ast.Attribute)]
-        if body_calls and all(c.func.attr in ("add", "update", "discard") for c in body_calls) and \
-                not any(isinstance(x, (ast.Return, ast.Yield)) for s in it.body for x in ast.walk(s)):
-            return True, "loop body only updates other sets"
+                return f"result list `{name}` is sorted in place afterwards"
+        stores = [n for n in walk_no_nested(fi.node) if isinstance(n, ast.Name) and n.id == name and isinstance(n.ctx, ast.Store)]
+        if loads and len(stores) == 1:
+            whys = [_order_free_use(fi, ld, depth - 1) for ld in loads]
+            if all(whys):
+                return f"every use of `{name}` is order-free ({whys[0]})"
+        return None
+    return None
+
+
+def _order_normalised(fi, it) -> tuple[bool, str]:
+    """reasons an iteration over a set is order-insensitive"""
+    if isinstance(it, ast.comprehension):
+        comp = getattr(it, "_parent", None)
+        if isinstance(comp, ast.SetComp):
+            return True, "builds another set"
+        holder = comp
+    else:
+        holder = it
+    if not isinstance(it, ast.For):
+        why = _order_free_use(fi, holder)
+        if why:
+            return True, why
+        q = getattr(holder, "_parent", None)
+        while isinstance(q, ast.Call) and dotted(q.func) in ORDER_KEEPING:
+            q = getattr(q, "_parent", None)
+        if isinstance(q, ast.Return) and fi.short == "ColorService.collect_document_colors":
+            return True, "returned colour list is re-sorted by master index in generate_rtf_color_table/get_rtf_color_index (checked by C12 R12.2)"
+        return False, "no sort / order-insensitive use found"
+    # loop: the body only feeds other sets / membership tests
+    body_calls = [c for s in it.body for c in ast.walk(s) if isinstance(c, ast.Call) and isinstance(c.func, ast.Attribute)]
+    if body_calls and all(c.func.attr in ("add", "update", "discard") for c in body_calls) and \
+            not any(isinstance(x, (ast.Return, ast.Yield, ast.YieldFrom, ast.Break)) for s in it.body for x in ast.walk(s)):
+        return True, "loop body only updates other sets"
     return False, "no sort / order-insensitive use found"
 
 
@@ -295,8 +371,10 @@ def r14_5_6(ctx: Ctx, cg: CallGraph) -> None:
             if tgt is None:
                 continue
             ok, why = idempotent_registration(ctx, cg, st)
-            ctx.instance("R14.5", st.where, f"{short}: write to process state {tgt}: {'idempotent, ' + why if ok else 'history-dependent'}")
-            if not ok:
+            ctx.instance("R14.5", st.where, f"{short}: write to process state {tgt}: {'idempotent, ' + why if ok else 'history-dependent' if ok is False else 'undecided'}")
+            if ok is None:
+                ctx.gap("R14.5", f"{short}: registration `{st.text()}` into process state {tgt}: {why}")
+            elif not ok:
                 ctx.violation("R14.5", short, f"{st.how} {tgt}", st.where,
                               f"{short}: `{st.text()}` leaves process state {tgt} behind; later encodes can observe what earlier ones did")
         for d in fi.decorators:
@@ -317,17 +395,23 @@ def r14_5_6(ctx: Ctx, cg: CallGraph) -> None:
 def check(ctx: Ctx) -> None:
     cg = CallGraph(ctx.pm)
     ctx.explain(
-        "R14.1 CFG with exceptional edges of every function that sets the colour context: every path from the set call to a "
-        "normal or exceptional exit passes clear_document_context. R14.2 ownership analysis: flow-sensitive freshness of "
+        "R14.1 CFG with exceptional edges of every function that establishes the colour context (set_document_context or a "
+        "`with` on a context manager that sets it): every path from there to a normal or exceptional exit passes a clear "
+        "(clear_document_context, or the exit of such a `with` when the manager clears in a finally); context managers "
+        "themselves must establish the context on every path to their yield and clear it in a finally. R14.7 typestate over "
+        "the call graph: a read of the context outside the encode's own set..clear window is reported when R14.1 found a way "
+        "for a context to be left behind. R14.2 ownership analysis: flow-sensitive freshness of "
         "locals (constructor / deepcopy / model_copy(deep) / literals are fresh; parameters are fresh only if fresh at every "
         "call site, solved interprocedurally over the call graph from RTFDocument.__init__ and rtf_encode); every attribute/"
         "item store and mutator call on user-facing component objects must go through a fresh object. R14.3 no in-place "
         "frame operation. R14.4 no time/random/env/id/hash calls; set iteration order is normalised before it can reach "
-        "output. R14.5 process-state writes are idempotent constant registrations. R14.6 no memoisation on the path.")
+        "output (a set whose iteration only feeds order-free consumers - sorted, set/frozenset, membership, sum/min/max/any/all - is harmless). R14.5 process-state writes are idempotent constant registrations. R14.6 no memoisation on the path.")
     ctx.assume("objects of internal classes (PageContext, BroadcastValue, TextContent, Cell, Row, services) are never supplied by the user")
     ctx.assume("deepcopy/model_copy(deep=True)/DataFrame.clone/select/slice return objects that share no mutable state with their source")
     ctx.undecided("equality of the output with a fresh interpreter's output for concrete histories (follows from the absence of effects only)")
-    r14_1(ctx)
+    cc = ColourContext(ctx.pm, cg)
+    leaks = r14_1(ctx, cg, cc)
+    r14_7(ctx, cg, cc, leaks)
     r14_2(ctx, cg)
     r14_4(ctx, cg)
     r14_5_6(ctx, cg)
